@@ -5,6 +5,7 @@ CONSTANTS
   SigForms = {"full", "nov", "vflip", "rflip", "empty", "short", "long"}
   MaxOps = 6
   MaxChurn = 1
+  Suites = {"none", "tls:chacha", "tls:aes128", "tls:aes256", "ecdhe:chacha", "ecdhe:aes128", "ecdhe:aes256"}
   DialerSelfCheck = TRUE
   RecordHist = TRUE
   Depth = 6
